@@ -15,6 +15,7 @@ package main
 import (
 	"bytes"
 	"context"
+	"errors"
 	"fmt"
 	"io"
 	"math/rand/v2"
@@ -748,6 +749,86 @@ func commitVersusResume(run *evid.Run, round int) {
 	run.Distinct("stress/commit-versus-resume")
 }
 
+// resumeNotLost: a three-operation real-time history on one upload session, repeated. In each round a
+// resume at the session's true size completes; then a write W1 runs concurrently with a resume B at an
+// offset the session never has; after both have returned a second write W2 runs. B is the last resume of
+// the session in every linearization (it starts after the true resume returned and ends before W2 starts),
+// and a write that fails leaves the pending offset check in place, so in the sequential reference
+// semantics W2 is refused with RANGE_INVALID whichever way W1 and B are ordered. A W2 that succeeds means
+// B's effect was lost.
+func resumeNotLost(run *evid.Run, lane, rounds int) {
+	reg := ocimem.New()
+	repo := fmt.Sprintf("rl%d", lane)
+	w, err := reg.PushBlobChunked(bg, repo, 0)
+	if err != nil {
+		run.Inconclusive("resume-not-lost setup: " + err.Error())
+		return
+	}
+	id := w.ID()
+	const bad = int64(1) << 40
+	var round, done atomic.Int64
+	var stop atomic.Bool
+	var bErr error
+	var wg sync.WaitGroup
+	wg.Add(1)
+	go func() {
+		defer wg.Done()
+		last := int64(0)
+		for {
+			for round.Load() == last {
+				if stop.Load() {
+					return
+				}
+			}
+			last++
+			if _, err := reg.PushBlobChunkedResume(bg, repo, id, bad, 0); err != nil && bErr == nil {
+				bErr = err
+			}
+			done.Store(last)
+		}
+	}()
+	spin := lane * 13
+	w1Refused, w1Accepted := 0, 0
+	for n := int64(1); n <= int64(rounds); n++ {
+		if _, err := reg.PushBlobChunkedResume(bg, repo, id, w.Size(), 0); err != nil {
+			run.Violation("resume-not-lost/true-resume-failed", "resuming a live session at its own size failed: "+err.Error(), map[string]any{"round": n})
+			break
+		}
+		round.Store(n)
+		spin = (spin + 7) % 400
+		for i := 0; i < spin; i++ {
+			_ = stop.Load()
+		}
+		_, e1 := w.Write([]byte("a"))
+		for done.Load() != n {
+		}
+		_, e2 := w.Write([]byte("b"))
+		if e1 != nil {
+			w1Refused++
+		} else {
+			w1Accepted++
+		}
+		if e1 != nil && !errors.Is(e1, ociregistry.ErrRangeInvalid) || e2 != nil && !errors.Is(e2, ociregistry.ErrRangeInvalid) {
+			run.Violation("resume-not-lost/other-error", fmt.Sprintf("a write to a live session failed with something other than RANGE_INVALID: %v / %v", e1, e2), map[string]any{"round": n})
+			break
+		}
+		if e2 == nil {
+			run.Violation("resume-not-lost/check-lost", fmt.Sprintf("a resume at offset %d (the session holds %d bytes) had returned before this write began and no later resume exists, yet the write was accepted: no sequential order of {write, resume} followed by this write explains it (concurrent write: %v)", bad, w.Size()-1, e1), map[string]any{"round": n, "lane": lane, "concurrent_write_error": fmt.Sprint(e1)})
+			break
+		}
+	}
+	stop.Store(true)
+	wg.Wait()
+	if bErr != nil {
+		run.Violation("resume-not-lost/resume-failed", "resuming a live session failed: "+bErr.Error(), nil)
+	}
+	run.Eval(1)
+	run.Count("resume_not_lost_rounds", rounds)
+	run.Count("resume_not_lost/w1_refused", w1Refused)
+	run.Count("resume_not_lost/w1_accepted", w1Accepted)
+	run.Distinct("stress/resume-not-lost")
+}
+
 // ---------- 4. race stress
 
 func stressDirect(run *evid.Run, round int, reg ociregistry.Interface, mode string, nG, nOps int) {
@@ -960,6 +1041,17 @@ func main() {
 		commitVersusResume(run, r)
 	}
 	run.FloorCounter("commit_versus_resume_rounds", 40)
+	{
+		var wg sync.WaitGroup
+		for lane := 0; lane < 6; lane++ {
+			wg.Add(1)
+			go func() { defer wg.Done(); resumeNotLost(run, lane, run.N(60000, 2000000)) }()
+		}
+		wg.Wait()
+		// both orders of the concurrent pair must have been seen, or the rounds explored nothing
+		run.FloorCounter("resume_not_lost/w1_refused", 100)
+		run.FloorCounter("resume_not_lost/w1_accepted", 100)
+	}
 
 	run.FloorCounter("forced_windows_hit", run.N(50, 2000))
 	run.FloorCounter("overlapping_pairs", 1000)
